@@ -9,7 +9,7 @@ LEVEL = {"C17": "fault_enumeration", "C06": "model_checking", "C07": "model_chec
          "C16": "model_checking"}
 
 # (focus, tier) -> maximum number of generated cases replayed (seeded sample beyond it)
-SAMPLE_CAP = {("C01", "quick"): 3500, ("C01", "thorough"): 60000}
+SAMPLE_CAP = {("C01", "quick"): 3500, ("C01", "thorough"): 36000}
 # programs up to this many statements are always kept when sampling
 SHORT_LEN = {"C01": 5}
 
@@ -68,7 +68,7 @@ def validate(traces, wd, spec="TraceCore.tla", cfg=TRACE_CFG):
         if os.path.getsize(path) == 0:
             return None
         name = "Trace_" + os.path.basename(path).replace(".", "_")
-        out = tlc(spec, cfg, wd, workers=1, env={"TRACE": path}, name=name, timeout=3000, extra=[])
+        out = tlc(spec, cfg, wd, workers=1, env={"TRACE": path}, name=name, timeout=9000, extra=[])
         res = printed(out, "RESULT")
         if not res:
             raise ToolError(f"trace {path} was not consumed by {spec} (unexplained trace):\n" + out[-2500:])
